@@ -104,6 +104,18 @@ static void do_dec(const uint8_t* bytes, int len, const int* idx, int nidx, int 
     uint8_t* blk = (uint8_t*) malloc(len);          /* exactly len octets */
     memcpy(blk, bytes, len);
     CS101_ASDU a = CS101_ASDU_createFromBuffer(&alp, blk, len);
+    {   /* the same octets through the entry point with CALLER-supplied ASDU storage (what the CS104 / CS101 receive paths use): it must
+           accept exactly what the allocating entry point accepts and read the same header; a line is printed only when they differ */
+        static sCS101_StaticASDU stx;
+        uint8_t* blk2 = (uint8_t*) malloc(len);
+        memcpy(blk2, bytes, len);
+        CS101_ASDU b = CS101_ASDU_createFromBufferEx((CS101_ASDU) &stx, &alp, blk2, len);
+        if ((a == NULL) != (b == NULL)) printf("hx accept-mismatch heap=%d caller=%d len=%d\n", a != NULL, b != NULL, len);
+        else if (b && ((int) CS101_ASDU_getTypeID(a) != (int) CS101_ASDU_getTypeID(b) || CS101_ASDU_getNumberOfElements(a) != CS101_ASDU_getNumberOfElements(b) ||
+                       (int) CS101_ASDU_getCOT(a) != (int) CS101_ASDU_getCOT(b) || CS101_ASDU_getCA(a) != CS101_ASDU_getCA(b) || CS101_ASDU_getOA(a) != CS101_ASDU_getOA(b)))
+            printf("hx header-mismatch len=%d\n", len);
+        free(blk2);
+    }
     if (a == NULL) { printf("hdr null\n"); free(blk); return; }
     printf("hdr t=%d sq=%d n=%d cot=%d tst=%d neg=%d oa=%d ca=%d\n", (int) CS101_ASDU_getTypeID(a), CS101_ASDU_isSequence(a) ? 1 : 0,
            CS101_ASDU_getNumberOfElements(a), (int) CS101_ASDU_getCOT(a), CS101_ASDU_isTest(a) ? 1 : 0, CS101_ASDU_isNegative(a) ? 1 : 0,
